@@ -85,6 +85,7 @@ type rec struct {
 	Outcome string   `json:"outcome,omitempty"`
 	Sample  any      `json:"sample,omitempty"`
 	Stats   map[string]int `json:"stats,omitempty"`
+	Raw     *rawFail       `json:"raw,omitempty"`
 }
 
 // ---- (i) map iteration order ---------------------------------------------------------
@@ -343,6 +344,11 @@ type execSpec struct {
 
 type execResult struct {
 	Obs      obsv              `json:"obs"`
+	// Infeasible: an earlier program of the spec ended through os.Exit (exit(), the time limit, the
+	// VM's default uncaught handler). In reality the process is gone at that point, so "the next
+	// program in the same process" does not exist; the harness only got here because it turns
+	// os.Exit into a panic.
+	Infeasible bool `json:"infeasible,omitempty"`
 	Carriers []string          `json:"carriers,omitempty"`
 	Shapes   map[string]string `json:"shapes,omitempty"` // expr -> shape of the value when the last program first read it
 }
@@ -493,6 +499,7 @@ func execMain(arg string) {
 		}
 	}
 	var ob obsv
+	infeasible := false
 	for i, name := range spec.Progs {
 		phase = i
 		// map iteration order is always pinned (ascending unless the spec deviates), so that the
@@ -506,9 +513,12 @@ func execMain(arg string) {
 		} else {
 			ob = runWithOrder(findProg(name).Src, sel, nil)
 		}
+		if i < last && ob.Kind == "exit" {
+			infeasible = true
+		}
 	}
 	vshim.OnPoint = nil
-	r := execResult{Obs: ob, Shapes: shapes}
+	r := execResult{Obs: ob, Shapes: shapes, Infeasible: infeasible}
 	for cname := range carriers {
 		r.Carriers = append(r.Carriers, cname)
 	}
@@ -536,8 +546,11 @@ func pairWork(w *pool.W, arg json.RawMessage, cli bool) {
 		return
 	}
 	solo := sr.Obs
-	var n int64
+	var n, infeasible int64
 	for _, a := range pool_() {
+		if (cliOnly[a.Name] || cliOnly[bname]) && !cli {
+			continue
+		}
 		if !w.Item(tag + a.Name + ";" + bname) {
 			continue
 		}
@@ -547,6 +560,10 @@ func pairWork(w *pool.W, arg json.RawMessage, cli bool) {
 		pr, err := selfExec(execSpec{Progs: []string{a.Name, bname}, Trace: true, CLI: cli, Dir: dir})
 		if err != nil {
 			w.Emit(rec{Kind: "fail", Key: "harness:pair-exec", Clause: "harness", Detail: fmt.Sprint(a.Name, ";", bname, ": ", err)})
+			continue
+		}
+		if pr.Infeasible {
+			infeasible++
 			continue
 		}
 		if pr.Obs == solo {
@@ -572,7 +589,7 @@ func pairWork(w *pool.W, arg json.RawMessage, cli bool) {
 		w.Emit(rec{Kind: "fail", Key: key, Clause: "fresh-vm-independence", Size: len(a.Src) + len(b.Src), Case: map[string]any{"a": a.Name, "b": bname, "cli": cli},
 			Detail: fmt.Sprintf("B=%q alone in a new process"+route+": %s\nB on a fresh VM after A=%q: %s\npackage-level variables written by A and read by B with a different value than B alone sees: %v (all candidates: %v)", bname, solo, a.Name, pr.Obs, car, pr.Carriers)})
 	}
-	w.Emit(rec{Kind: "count", N: n})
+	w.Emit(rec{Kind: "count", N: n, Stats: map[string]int{"pairs-skipped:A-ended-through-os.Exit": int(infeasible)}})
 	if f := flakyChildCrashes.Swap(0); f > 0 {
 		w.Emit(rec{Kind: "flaky", N: f})
 	}
@@ -652,6 +669,8 @@ func main() {
 	var total int64
 	allSites := map[string]bool{}
 	routeStats := map[string]int64{}
+	rawFails := map[string]*rawFail{}
+	rawCount := map[string]int{}
 	progDir, _ := os.MkdirTemp("/dev/shm", "c20-progs-")
 	defer os.RemoveAll(progDir)
 	if err := writePrograms(progDir); err != nil {
@@ -674,6 +693,12 @@ func main() {
 			}
 		case "fail":
 			c.Fail(r.Key, r.Clause, r.Size, r.Case, r.Detail)
+		case "histfail":
+			ck := r.Raw.HKind + ":" + r.Raw.Class
+			if old, ok := rawFails[ck]; !ok || r.Raw.less(old) {
+				rawFails[ck] = r.Raw
+			}
+			rawCount[ck]++
 		case "flaky":
 			c.Add("child_process_crashes_not_reproduced_on_retry", r.N)
 		case "sample":
@@ -682,6 +707,12 @@ func main() {
 	}, func(d pool.Death) {
 		c.Fail("worker-death:"+runner.FatalFrame(d.Stderr), "no-crash", 0, map[string]any{"item": d.Item, "reason": d.Reason}, d.Stderr)
 	})
+	// every class of history failure is named after the first history of the canonical enumeration that shows it
+	for ck, r := range rawFails {
+		for i := 0; i < rawCount[ck]; i++ {
+			c.Fail(r.key(), "insertion-order", r.Size, r.Case, r.detail())
+		}
+	}
 	// (iv) the real CLI, twice per program
 	repo := os.Getenv("VERIF_REPO")
 	if repo == "" {
